@@ -313,8 +313,7 @@ func c04Sources(c *core.Ctx) {
 			i++
 			key := fmt.Sprintf("%s#uses:%s.%s%d", fd.Name(), fn.Pkg().Name(), fn.Name(), i)
 			// (ii) the correct / replicate / constructor family must set new values
-			lname := strings.ToLower(fd.Obj.Name())
-			if strings.HasPrefix(lname, "correct") || strings.HasPrefix(lname, "replicate") || strings.HasPrefix(fd.Obj.Name(), "New") {
+			if c04SetsNewValues(p, fd.Obj, 0, &c04cg) {
 				c.Ob("C04-R3", key, call.Pos(), true, "")
 				return true
 			}
@@ -621,4 +620,34 @@ func c04SameAsSearch(p *core.Program, fn *types.Func, argIdx int) bool {
 		}
 	}
 	return trueUnderMatch && falseAtEnd
+}
+
+
+var c04cg *callers
+
+// c04SetsNewValues: the function belongs to the correct / replicate /
+// constructor family, whose purpose is to set new identifiers and dates — by
+// its own name, or because it is an unexported helper all of whose callers
+// belong to that family.
+func c04SetsNewValues(p *core.Program, fn *types.Func, depth int, cg **callers) bool {
+	lname := strings.ToLower(fn.Name())
+	if strings.HasPrefix(lname, "correct") || strings.HasPrefix(lname, "replicate") || strings.HasPrefix(fn.Name(), "New") {
+		return true
+	}
+	if fn.Exported() || depth > 3 {
+		return false
+	}
+	if *cg == nil || (*cg).p != p {
+		*cg = buildCallers(p)
+	}
+	cs := (*cg).callersOf(fn)
+	if len(cs) == 0 {
+		return false
+	}
+	for _, cf := range cs {
+		if cf == fn || !c04SetsNewValues(p, cf, depth+1, cg) {
+			return false
+		}
+	}
+	return true
 }
